@@ -29,6 +29,14 @@ F_SERIAL = ["RModel.Facts.serialCookie_spec", "RModel.Facts.serialCookieNoRun_sp
 PINS = ["RModel.Facts.arrayMax_pinned", "RModel.Facts.lazyLowerBound_pinned", "RModel.Facts.invalidCardinality_pinned",
         "RModel.Facts.efficient_sizes_pinned"]
 PINS_MOD = "RProofs.Facts.Pins"
+# pinned comparison skeletons (every comparison against an integer constant >= 2 in a group of source files, regenerated each run)
+CMP_MOD = "RProofs.Facts.CmpSkeleton"
+def CMP(*groups):
+    return ["RModel.Facts.cmpSkeleton%s_pinned" % g for g in groups]
+CMP_OF = {"C01": ("Kernels", "Bitmap"), "C02": ("Kernels", "Bitmap"), "C03": ("Kernels", "Bitmap"), "C04": ("Kernels", "Bitmap"),
+          "C05": ("Serial",), "C06": ("Serial",), "C07": ("Bitmap",), "C08": ("Serial", "Bitmap"), "C09": ("Kernels", "Serial"),
+          "C10": ("Serial",), "C11": ("Agg",), "C12": ("Agg",), "C13": ("Serial",), "C14": ("Kernels", "Serial"), "C15": ("Kernels", "Bitmap"),
+          "C16": ("Kernels", "Bitmap"), "C17": ("R64",), "C18": ("R64", "Serial"), "C19": ("BSI64", "BSI32"), "C20": ("BSI64", "BSI32")}
 F_THRESH = ["RModel.Facts.arrayDefaultMaxSize_spec", "RModel.Facts.maxCapacity_spec", "RModel.Facts.bitmap_sizes",
             "RModel.Facts.invalidCardinality_spec", "RModel.Facts.maxUint_spec"]
 
@@ -307,3 +315,7 @@ _LN_TAIL = (" Axioms: propext, Classical.choice, Quot.sound only (audited per ob
 for _k, _v in _LT.items():
     PROPS[_k].setdefault("level_text", _v)
     PROPS[_k].setdefault("level_note", "Proved about the model: the theorems listed in the evidence file (coverage.theorems)." + _LN_TAIL)
+
+for _p, _g in CMP_OF.items():
+    PROPS[_p]["theorems"] = list(PROPS[_p].get("theorems", [])) + CMP(*_g)
+    PROPS[_p]["modules"] = list(PROPS[_p].get("modules", [])) + [CMP_MOD]
